@@ -475,6 +475,19 @@ func (tr *gtTr) binary(x *ast.BinaryExpr, env *venv) ex {
 		if c, ok := tr.indexRuneCmp(x, env); ok {
 			return c
 		}
+		// n.F == nil / n.F != nil for a field of /repo interface type of a struct parameter
+		if x.Op == token.EQL || x.Op == token.NEQ {
+			for _, pr := range [][2]ast.Expr{{x.X, x.Y}, {x.Y, x.X}} {
+				if id, isId := unparen(pr[1]).(*ast.Ident); isId && id.Name == "nil" && env.lookup("nil") == nil {
+					if flag, ok := tr.ifaceFieldNil(pr[0], env); ok {
+						if x.Op == token.NEQ {
+							return ex{code: "(negb " + flag + ")", typ: tBool}
+						}
+						return ex{code: flag, typ: tBool}
+					}
+				}
+			}
+		}
 		// interface value compared with data.Null{} / data.Undefined{}
 		if x.Op == token.EQL || x.Op == token.NEQ {
 			for _, pr := range [][2]ast.Expr{{x.X, x.Y}, {x.Y, x.X}} {
@@ -766,6 +779,10 @@ func (tr *gtTr) call(c *ast.CallExpr, env *venv) ex {
 	// (one per variable, so the ORDER of several replacements and their templates are translated), and the pattern
 	// text is emitted as src_<pkg>_<var>_pattern for the lemma that names the matcher it is instantiated with
 	if e, ok := tr.regexpMethod(c, env); ok {
+		return e
+	}
+	// n.F.M() on a field of /repo interface type of a struct parameter: the parameters m_n_F_nil / m_n_F_M
+	if e, ok := tr.ifaceFieldMethod(c, env); ok {
 		return e
 	}
 	// x.M() on a parameter of a /repo interface type: the value is a parameter of the translated function
@@ -1736,4 +1753,100 @@ func gtExprTextLit(e ast.Expr) string {
 		return bl.Value
 	}
 	return gtExprText(e)
+}
+
+// ifaceField: e is n.F with n a struct parameter (read only) and F a field whose type is an interface type of /repo.
+// Returns the stem m_n_F of the parameters that stand for it and the interface's declaration.
+func (tr *gtTr) ifaceField(e ast.Expr, env *venv) (stem string, p *gpkg, it *ast.InterfaceType, tname string, ok bool) {
+	sel, isSel := unparen(e).(*ast.SelectorExpr)
+	if !isSel {
+		return
+	}
+	id, isId := unparen(sel.X).(*ast.Ident)
+	if !isId {
+		return
+	}
+	v := env.lookup(id.Name)
+	if v == nil || v.typ.kind != kStruct || v.banned != "" {
+		return
+	}
+	for _, fl := range v.typ.fields {
+		if fl.name != sel.Sel.Name || fl.typ.kind != kOther || fl.typ.ndir == "" {
+			continue
+		}
+		p = tr.g.gtPkg(fl.typ.ndir)
+		ts := p.types[fl.typ.nname]
+		if ts == nil {
+			return
+		}
+		if it, isIt := ts.Type.(*ast.InterfaceType); isIt {
+			return "m_" + id.Name + "_" + fl.name, p, it, fl.typ.nname, true
+		}
+	}
+	return
+}
+
+// ifaceFieldNil: the flag "the interface field is nil" (a parameter of the translated function)
+func (tr *gtTr) ifaceFieldNil(e ast.Expr, env *venv) (string, bool) {
+	stem, _, _, _, ok := tr.ifaceField(e, env)
+	if !ok {
+		return "", false
+	}
+	tr.fn.addAbstract(gtAbstract{name: stem + "_nil", typ: "bool"})
+	return stem + "_nil", true
+}
+
+// ifaceFieldMethod: n.F.M() with no arguments: None (Go panics) when the field is nil, else the parameter m_n_F_M,
+// the value the method returns (a method that itself panics is outside what the parameter can say)
+func (tr *gtTr) ifaceFieldMethod(c *ast.CallExpr, env *venv) (ex, bool) {
+	sel, ok := c.Fun.(*ast.SelectorExpr)
+	if !ok || len(c.Args) != 0 {
+		return ex{}, false
+	}
+	stem, p, it, tname, ok := tr.ifaceField(sel.X, env)
+	if !ok {
+		return ex{}, false
+	}
+	var find func(p *gpkg, it *ast.InterfaceType, tname string, depth int) (*gtype, bool)
+	find = func(p *gpkg, it *ast.InterfaceType, tname string, depth int) (*gtype, bool) {
+		if depth > 8 {
+			return nil, false
+		}
+		for _, m := range it.Methods.List {
+			if len(m.Names) == 0 {
+				// an embedded interface of the same package
+				if eid, isId := m.Type.(*ast.Ident); isId {
+					if ts := p.types[eid.Name]; ts != nil {
+						if eit, isIt := ts.Type.(*ast.InterfaceType); isIt {
+							if t, ok := find(p, eit, eid.Name, depth+1); ok {
+								return t, true
+							}
+						}
+					}
+				}
+				continue
+			}
+			ft, isFn := m.Type.(*ast.FuncType)
+			if !isFn || len(m.Names) != 1 || m.Names[0].Name != sel.Sel.Name {
+				continue
+			}
+			if (ft.Params != nil && len(ft.Params.List) > 0) || ft.Results == nil || len(ft.Results.List) != 1 || len(ft.Results.List[0].Names) > 1 {
+				gtFail("interface method %s.%s is not of the form M() T", tname, sel.Sel.Name)
+			}
+			rt := tr.g.resolveType(p, p.typeIn[tname], ft.Results.List[0].Type, 0)
+			if !rt.supported() || rt.usesValue() {
+				gtFail("interface method %s.%s returns a %s", tname, sel.Sel.Name, rt.name)
+			}
+			return rt, true
+		}
+		return nil, false
+	}
+	rt, found := find(p, it, tname, 0)
+	if !found {
+		return ex{}, false
+	}
+	tr.fn.addAbstract(gtAbstract{name: stem + "_nil", typ: "bool"})
+	tr.fn.addAbstract(gtAbstract{name: stem + "_" + sel.Sel.Name, typ: rt.coq()})
+	o := tr.fresh()
+	return ex{binds: []gbind{{o, fmt.Sprintf("if %s_nil then None else Some %s_%s", stem, stem, sel.Sel.Name)}}, code: o, typ: rt}, true
 }
